@@ -137,6 +137,30 @@ func probesValues() []*m.Q {
 	return out
 }
 
+// alphabetNested: objects nested in documents, an index on a dotted path (and on the enclosing object), rewritten
+// through the dotted path (bulk and by id, copying and in place) and as a whole.
+func alphabetNested() []m.Op {
+	return []m.Op{
+		{K: "createIndex", Coll: "a", Field: "n.a"}, {K: "dropIndex", Coll: "a", Field: "n.a"}, {K: "createIndex", Coll: "a", Field: "n"},
+		ins("a", doc(u1, "n.a", int64(1), "n.b", "keep")), ins("a", doc(u2, "n.a", int64(2)), doc(u3, "n", int64(5))),
+		{K: "update", Q: qOn("a", m.Exists("n.a")), Set: setMap("n.a", int64(4))},
+		{K: "update", Q: qOn("a", m.Leaf("lte", "n.a", int64(2))), Set: setMap("n.c.d", "deep")},
+		updID("a", u1, "inplace", "n.a", int64(2)), updID("a", u1, "copy", "n.a", int64(3)),
+		updID("a", u2, "copy", "n", map[string]interface{}{"a": int64(1)}), updID("a", u3, "inplace", "n.a", int64(1)),
+		{K: "updateFunc", Q: &m.Q{Coll: "a", Crit: m.Leaf("gte", "n.a", int64(1)), Sort: sortBy("n.a", -1)}, Upd: &m.Updater{Set: setMap("n.a", int64(0)), Style: "inplace"}},
+		{K: "replaceById", Coll: "a", Id: u1, Docs: []m.Doc{doc(u1, "n.a", int64(2))}},
+		{K: "deleteById", Coll: "a", Id: u2}, {K: "delete", Q: qOn("a", m.Leaf("eq", "n.a", int64(4)))},
+	}
+}
+
+func probesNested() []*m.Q {
+	out := []*m.Q{}
+	for _, c := range []*m.Crit{m.Leaf("gte", "n.a", int64(0)), m.Leaf("lt", "n.a", int64(3)), m.Leaf("eq", "n.a", int64(2)), m.Exists("n.a"), m.Leaf("eq", "n.b", "keep"), m.Leaf("gt", "n", nil), m.Leaf("eq", "n.c.d", "deep")} {
+		out = append(out, qOn("a", c), &m.Q{Coll: "a", Crit: c, Sort: sortBy("n.a", -1)})
+	}
+	return append(out, &m.Q{Coll: "a", Sort: sortBy("n.a", 1)}, &m.Q{Coll: "a", Sort: sortBy("n", 1)})
+}
+
 func derivedQueries() []*m.Q {
 	x1 := m.Leaf("eq", "x", int64(1))
 	return []*m.Q{
@@ -162,6 +186,7 @@ func ssConfigs(tier string) map[string]*eng.SSConfig {
 		"indexes":     {Name: "indexes", Init: []m.Op{{K: "createColl", Coll: "a"}}, Alphabet: alphabetIndexes(), Raw: true, Audit: drv.AuditOpts{Fields: fieldsC14, Probes: probesIndexes()}, Budget: budget(tier, q, t)},
 		"ids":         {Name: "ids", Init: []m.Op{{K: "createColl", Coll: "a"}, {K: "createColl", Coll: "b"}}, Alphabet: alphabetIDs(), Raw: true, Budget: budget(tier, q, t)},
 		"values":      {Name: "values", Init: []m.Op{{K: "createColl", Coll: "a"}}, Alphabet: alphabetValues(), Audit: drv.AuditOpts{Probes: probesValues()}, Budget: budget(tier, q, t)},
+		"nested":      {Name: "nested", Init: []m.Op{{K: "createColl", Coll: "a"}}, Alphabet: alphabetNested(), Raw: true, Audit: drv.AuditOpts{Probes: probesNested()}, Budget: budget(tier, q, t)},
 		"derived":     {Name: "derived", Alphabet: alphabetC06(), Derived: derivedQueries(), Budget: budget(tier, q, t)},
 	}
 }
